@@ -58,7 +58,7 @@ def plan(tier, seed):
     # symbol-type configurations: integer tokens whose hashes collide (hash(-1) == hash(-2)), and falsy tokens
     for c in base:
         if c["name"] in ("sharp:right-rec", "sharp:catalan", "sharp:nullable-pair", "sharp:anbn", "sharp:unary-chain+binary-reuse", "sharp:mutual-recursion"):
-            for kind in ("earley", "cky", "ckylm", "earleylm", "boollm-cky", "boollm-earley"):
+            for kind in (("earley", "cky", "ckylm", "earleylm", "boollm-cky", "boollm-earley") if tier == "thorough" else ("earley", "cky", "boollm-cky")):
                 cases.append(dict(c, mode="hist", kind=kind, hdepth=2, symmap={"a": -1, "b": -2}))
                 cases.append(dict(c, mode="hist", kind=kind, hdepth=2, symmap={"a": 0, "b": 1}))
     for pool in INTERLEAVE_POOLS:
@@ -66,6 +66,8 @@ def plan(tier, seed):
     for fam in ("right-rec", "anbn"):
         for kind in ("earley", "rescaled", "cky", "earleylm", "rescaledlm", "boollm-earley"):
             cases.append({"name": "long:" + fam, "rules": [], "mode": "long", "kind": kind, "family": fam})
+    # longest explorations first (the pool hands out one case at a time)
+    cases.sort(key=lambda c: -(100 * int(c.get("hdepth", 0) >= 3) + 50 * int(c["mode"] == "interleave") + 30 * int(c["mode"] == "long") + len(c.get("rules", []))))
     return {
         "cases": cases,
         "states": len(cases),
